@@ -331,19 +331,27 @@ fn ark_part(ctx: &Ctx, rec: &mut Rec, zoo: &[SE]) {
         for cl in ["4-torsion", "identity-reps", "on-curve-outside-group", "in-group (TE format)", "off-curve", "decaf-encoding", "random"] {
             rec.declare_class(&format!("deser:{cl}"));
         }
-        type DeFn = fn(&[u8]) -> Result<El, String>;
+        type DeFn = fn(&[u8]) -> Result<Vec<El>, String>;
         let modes: Vec<(&'static str, DeFn)> = vec![
-            ("Element::deserialize_with_mode(Yes,Yes)", |s| El::deserialize_with_mode(s, Compress::Yes, Validate::Yes).map_err(|e| format!("{e:?}"))),
-            ("Element::deserialize_with_mode(Yes,No)", |s| El::deserialize_with_mode(s, Compress::Yes, Validate::No).map_err(|e| format!("{e:?}"))),
-            ("Element::deserialize_with_mode(No,Yes)", |s| El::deserialize_with_mode(s, Compress::No, Validate::Yes).map_err(|e| format!("{e:?}"))),
-            ("Element::deserialize_with_mode(No,No)", |s| El::deserialize_with_mode(s, Compress::No, Validate::No).map_err(|e| format!("{e:?}"))),
-            ("AffinePoint::deserialize_with_mode(Yes,Yes)", |s| Af::deserialize_with_mode(s, Compress::Yes, Validate::Yes).map(|a| a.into()).map_err(|e| format!("{e:?}"))),
-            ("AffinePoint::deserialize_with_mode(Yes,No)", |s| Af::deserialize_with_mode(s, Compress::Yes, Validate::No).map(|a| a.into()).map_err(|e| format!("{e:?}"))),
-            ("AffinePoint::deserialize_with_mode(No,Yes)", |s| Af::deserialize_with_mode(s, Compress::No, Validate::Yes).map(|a| a.into()).map_err(|e| format!("{e:?}"))),
-            ("AffinePoint::deserialize_with_mode(No,No)", |s| Af::deserialize_with_mode(s, Compress::No, Validate::No).map(|a| a.into()).map_err(|e| format!("{e:?}"))),
-            ("AffinePoint::deserialize_uncompressed", |s| Af::deserialize_uncompressed(s).map(|a| a.into()).map_err(|e| format!("{e:?}"))),
-            ("AffinePoint::deserialize_compressed_unchecked", |s| Af::deserialize_compressed_unchecked(s).map(|a| a.into()).map_err(|e| format!("{e:?}"))),
-            ("Element::deserialize_uncompressed_unchecked", |s| El::deserialize_uncompressed_unchecked(s).map_err(|e| format!("{e:?}"))),
+            ("Element::deserialize_with_mode(Yes,Yes)", |s| El::deserialize_with_mode(s, Compress::Yes, Validate::Yes).map(|x| vec![x]).map_err(|e| format!("{e:?}"))),
+            ("Element::deserialize_with_mode(Yes,No)", |s| El::deserialize_with_mode(s, Compress::Yes, Validate::No).map(|x| vec![x]).map_err(|e| format!("{e:?}"))),
+            ("Element::deserialize_with_mode(No,Yes)", |s| El::deserialize_with_mode(s, Compress::No, Validate::Yes).map(|x| vec![x]).map_err(|e| format!("{e:?}"))),
+            ("Element::deserialize_with_mode(No,No)", |s| El::deserialize_with_mode(s, Compress::No, Validate::No).map(|x| vec![x]).map_err(|e| format!("{e:?}"))),
+            ("AffinePoint::deserialize_with_mode(Yes,Yes)", |s| Af::deserialize_with_mode(s, Compress::Yes, Validate::Yes).map(|a| a.into()).map(|x| vec![x]).map_err(|e| format!("{e:?}"))),
+            ("AffinePoint::deserialize_with_mode(Yes,No)", |s| Af::deserialize_with_mode(s, Compress::Yes, Validate::No).map(|a| a.into()).map(|x| vec![x]).map_err(|e| format!("{e:?}"))),
+            ("AffinePoint::deserialize_with_mode(No,Yes)", |s| Af::deserialize_with_mode(s, Compress::No, Validate::Yes).map(|a| a.into()).map(|x| vec![x]).map_err(|e| format!("{e:?}"))),
+            ("AffinePoint::deserialize_with_mode(No,No)", |s| Af::deserialize_with_mode(s, Compress::No, Validate::No).map(|a| a.into()).map(|x| vec![x]).map_err(|e| format!("{e:?}"))),
+            ("AffinePoint::deserialize_uncompressed", |s| Af::deserialize_uncompressed(s).map(|a| a.into()).map(|x| vec![x]).map_err(|e| format!("{e:?}"))),
+            ("AffinePoint::deserialize_compressed_unchecked", |s| Af::deserialize_compressed_unchecked(s).map(|a| a.into()).map(|x| vec![x]).map_err(|e| format!("{e:?}"))),
+            ("Element::deserialize_uncompressed_unchecked", |s| El::deserialize_uncompressed_unchecked(s).map(|x| vec![x]).map_err(|e| format!("{e:?}"))),
+            // containers: ark-serialize reads the items with Validate::No and validates them afterwards through
+            // Valid::batch_check, i.e. through the types' own (trivial) `check`
+            ("Vec<Element>::deserialize_compressed", |s| { let mut v = 2u64.to_le_bytes().to_vec(); v.extend_from_slice(s); v.extend_from_slice(s); Vec::<El>::deserialize_compressed(&v[..]).map_err(|e| format!("{e:?}")) }),
+            ("Vec<AffinePoint>::deserialize_compressed", |s| { let mut v = 1u64.to_le_bytes().to_vec(); v.extend_from_slice(s); Vec::<Af>::deserialize_compressed(&v[..]).map(|l| l.into_iter().map(|a| a.into()).collect()).map_err(|e| format!("{e:?}")) }),
+            ("[Element; 2]::deserialize_compressed", |s| { let mut v = s.to_vec(); v.extend_from_slice(s); <[El; 2]>::deserialize_compressed(&v[..]).map(|l| l.to_vec()).map_err(|e| format!("{e:?}")) }),
+            ("(Element, AffinePoint)::deserialize_compressed", |s| { let mut v = s.to_vec(); v.extend_from_slice(s); <(El, Af)>::deserialize_compressed(&v[..]).map(|(a, bb)| vec![a, bb.into()]).map_err(|e| format!("{e:?}")) }),
+            ("Option<Element>::deserialize_compressed", |s| { let mut v = vec![1u8]; v.extend_from_slice(s); Option::<El>::deserialize_compressed(&v[..]).map(|o| o.into_iter().collect()).map_err(|e| format!("{e:?}")) }),
+            ("Vec<Element>::deserialize_uncompressed_unchecked", |s| { let mut v = 1u64.to_le_bytes().to_vec(); v.extend_from_slice(s); Vec::<El>::deserialize_uncompressed_unchecked(&v[..]).map_err(|e| format!("{e:?}")) }),
         ];
         for (name, _) in &modes {
             rec.declare_form(name);
@@ -361,9 +369,11 @@ fn ark_part(ctx: &Ctx, rec: &mut Rec, zoo: &[SE]) {
                     match guarded(|| f(&s2)) {
                         Err(_) => rec.count("deserialisation mode not implemented / panicked (nothing handed out)", 1),
                         Ok(Err(_)) => rec.count("hostile strings rejected", 1),
-                        Ok(Ok(e)) => {
+                        Ok(Ok(es)) => {
                             rec.count("hostile strings accepted", 1);
-                            validate(ctx, rec, name, &e, json!({"bytes": hx(s), "class": class}), true);
+                            for e in es {
+                                validate(ctx, rec, name, &e, json!({"bytes": hx(s), "class": class}), true);
+                            }
                         }
                     }
                 }
